@@ -1,16 +1,24 @@
 import BPT.Core.Tree
+import BPT.Core.Res
+import BPT.Arena.Model
+import BPT.Rust.Policy
 /-
-  Executable model of rust/src/{insert_operations,node}.rs (insert path) — spike.
-  `none` = panic.
+  Executable model of the Rust map's mutators and typed readers
+  (rust/src/{construction,insert_operations,delete_operations,get_operations,
+  tree_structure,node}.rs).  Import-free apart from BPT core files.
+
+  * the tree is height-indexed (`Tree K V h`); node ids and `next` links are data;
+  * `Alloc` is the id allocator of a `CompactArena` (storage length + free list);
+    ids are allocated in the code's order, so the model predicts every slot;
+  * `none` = the Rust code panics at this point (index out of range, `unwrap` on
+    `None`, `debug_assert!`, usize underflow).
 -/
 namespace BPT.Rust
 open BPT
 
-def nullId : Nat := 4294967295
-
 structure Alloc where
   len : Nat
-  free : List Nat      -- head = most recently freed (Vec::pop takes it first)
+  free : List Nat      -- head = most recently freed (what `free_list.pop()` returns)
 deriving Repr
 
 def Alloc.alloc (a : Alloc) : Nat × Alloc :=
@@ -27,37 +35,39 @@ deriving Repr
 
 variable {K V : Type} [Keyed K]
 
+/-! ## insert -/
+
 inductive InsRes (K V : Type) (h : Nat) where
   | updated (t : Tree K V h) (old : Option V)
   | split (l r : Tree K V h) (sep : K) (old : Option V)
 
-/-- `split1` of the core library, restated on raw fields so this file stays import-light -/
+/-- replace child `i` by `(l, r)` separated by `sep` (same as `Branch.split1`) -/
 def branchSplit1 (b : Branch K α) (i : Nat) (l r : α) (sep : K) : Branch K α :=
   { b with keys := insertAt b.keys i sep, children := insertAt (setAt b.children i l) (i+1) r }
 
-/-- key absent from the leaf, `i` = insertion index -/
+/-- split the full leaf `l` at `mid` and put `(k, v)` (insertion index `i`) into the proper half -/
+def splitLeafAt (l : Leaf K V) (k : K) (v : V) (al : Allocs) (i mid : Nat) : Option (InsRes K V 0 × Allocs) :=
+  let newId := al.leaf.alloc.1
+  let lk := l.keys.take mid
+  let lv := l.vals.take mid
+  let rk := l.keys.drop mid
+  let rv := l.vals.drop mid
+  let left : Leaf K V :=
+    if goesLeft i mid then { id := l.id, keys := insertAt lk i k, vals := insertAt lv i v, next := newId }
+    else { id := l.id, keys := lk, vals := lv, next := newId }
+  let right : Leaf K V :=
+    if goesLeft i mid then { id := newId, keys := rk, vals := rv, next := l.next }
+    else { id := newId, keys := insertAt rk (i - mid) k, vals := insertAt rv (i - mid) v, next := l.next }
+  match right.keys.head? with
+  | none => none                            -- `first_key().unwrap()`
+  | some sep => some (.split (left : Leaf K V) (right : Leaf K V) sep none, { al with leaf := al.leaf.alloc.2 })
+
+/-- `insert_into_leaf`, key absent, `i` = insertion index -/
 def insertLeafAbsent (cap : Nat) (l : Leaf K V) (k : K) (v : V) (al : Allocs) (i : Nat) : Option (InsRes K V 0 × Allocs) :=
-  if l.keys.length < cap then
+  if ¬ isFull cap l.keys.length then
     some (.updated ({ l with keys := insertAt l.keys i k, vals := insertAt l.vals i v } : Leaf K V) none, al)
-  else
-    let minK := cap / 2
-    let n := l.keys.length
-    if n < minK then none else
-    let mid := min (max ((n + 1) / 2) minK) (n - minK)
-    let newId := al.leaf.alloc.1
-    let lk := l.keys.take mid
-    let lv := l.vals.take mid
-    let rk := l.keys.drop mid
-    let rv := l.vals.drop mid
-    let left : Leaf K V :=
-      if i ≤ mid then { id := l.id, keys := insertAt lk i k, vals := insertAt lv i v, next := newId }
-      else { id := l.id, keys := lk, vals := lv, next := newId }
-    let right : Leaf K V :=
-      if i ≤ mid then { id := newId, keys := rk, vals := rv, next := l.next }
-      else { id := newId, keys := insertAt rk (i - mid) k, vals := insertAt rv (i - mid) v, next := l.next }
-    match right.keys.head? with
-    | none => none
-    | some sep => some (.split (left : Leaf K V) (right : Leaf K V) sep none, { al with leaf := al.leaf.alloc.2 })
+  else if l.keys.length < minKeys cap then none       -- `total_keys - min_keys` underflows
+  else splitLeafAt l k v al i (leafSplitMid cap l.keys.length)
 
 def insertLeaf (cap : Nat) (l : Leaf K V) (k : K) (v : V) (al : Allocs) : Option (InsRes K V 0 × Allocs) :=
   let i := lowerBound l.keys k
@@ -83,14 +93,309 @@ def insertRec (cap : Nat) : (h : Nat) → Tree K V h → K → V → Allocs → 
           some (.updated ({ b with children := setAt b.children i c' } : Branch K (Tree K V h)) old, al')
       | some (.split l r sep old, al') =>
           let b1 := branchSplit1 b i l r sep
-          if b.keys.length ≥ cap then
-            let mid := cap / 2
+          if isFull cap b.keys.length then
+            let mid := branchSplitMid cap
             match b1.keys[mid]? with
-            | none => none
+            | none => none                    -- `self.keys[mid]`
             | some pk =>
               let right : Branch K (Tree K V h) := { id := al'.branch.alloc.1, keys := b1.keys.drop (mid+1), children := b1.children.drop (mid+1) }
               let left : Branch K (Tree K V h) := { id := b.id, keys := b1.keys.take mid, children := b1.children.take (mid+1) }
               some (.split left right pk old, { al' with branch := al'.branch.alloc.2 })
           else some (.updated (b1 : Branch K (Tree K V h)) old, al')
+
+/-! ## remove -/
+
+structure RemOut (K V : Type) (h : Nat) where
+  t : Tree K V h
+  old : Option V
+  under : Bool
+
+/-- `LeafNode::remove` -/
+def removeLeaf (cap : Nat) (l : Leaf K V) (k : K) : Option (RemOut K V 0) :=
+  let i := lowerBound l.keys k
+  let found : Bool := match l.keys[i]? with
+    | some k' => ord k' = ord k
+    | none => false
+  if found then
+    match l.vals[i]? with
+    | none => none                            -- `self.values.remove(index)` out of range
+    | some old =>
+      let l' : Leaf K V := { l with keys := removeAt l.keys i, vals := removeAt l.vals i }
+      some { t := l', old := some old, under := isUnderfull cap (l.keys.length - 1) }
+  else some { t := (l : Leaf K V), old := none, under := false }
+
+/-- rotate the last entry of leaf `a` into the front of leaf `c`; new separator = moved key -/
+def leafBorrowLeft (a c : Leaf K V) : Option (Leaf K V × Leaf K V × K) :=
+  match a.keys.getLast?, a.vals.getLast? with
+  | some k, some v =>
+    some ({ a with keys := a.keys.dropLast, vals := a.vals.dropLast },
+          { c with keys := k :: c.keys, vals := v :: c.vals }, k)
+  | _, _ => none
+/-- rotate the first entry of leaf `r` to the end of leaf `c`; new separator = `r`'s new first key -/
+def leafBorrowRight (c r : Leaf K V) : Option (Leaf K V × Leaf K V × Option K) :=
+  match r.keys, r.vals with
+  | k :: ks, v :: vs =>
+    some ({ c with keys := c.keys ++ [k], vals := c.vals ++ [v] }, { r with keys := ks, vals := vs }, ks.head?)
+  | _, _ => none
+/-- `a` absorbs `b` (its right neighbour) -/
+def leafMerge (cap : Nat) (a b : Leaf K V) : Option (Leaf K V) :=
+  if a.keys.length + b.keys.length ≤ cap ∧ a.vals.length + b.vals.length ≤ cap then   -- debug_assert!
+    some { a with keys := a.keys ++ b.keys, vals := a.vals ++ b.vals, next := b.next }
+  else none
+
+/-- children `i, i+1` and the separator between them replaced (borrow / rotate) -/
+def branchReplace2 (b : Branch K α) (i : Nat) (l r : α) (sep : K) : Branch K α :=
+  { b with keys := setAt b.keys i sep, children := setAt (setAt b.children i l) (i+1) r }
+/-- children `i, i+1` merged into `m`, the separator between them dropped -/
+def branchMerge2 (b : Branch K α) (i : Nat) (m : α) : Branch K α :=
+  { b with keys := removeAt b.keys i, children := removeAt (setAt b.children i m) (i+1) }
+
+/-- `rebalance_leaf`: child `i` of `b` is an underfull leaf -/
+def rebalanceLeaf (cap : Nat) (b : Branch K (Leaf K V)) (i : Nat) (al : Allocs) : Option (Branch K (Leaf K V) × Allocs) :=
+  match b.children[i]? with
+  | none => none                               -- `parent_branch.children[child_index]`
+  | some c =>
+    let left : Option (Leaf K V) := if i > 0 then b.children[i-1]? else none
+    let right : Option (Leaf K V) := if i + 1 < b.children.length then b.children[i+1]? else none
+    let leftDonates : Bool := match left with | some a => canDonate cap a.keys.length | none => false
+    let rightDonates : Bool := match right with | some r => canDonate cap r.keys.length | none => false
+    if leftDonates then
+      match left with
+      | none => none
+      | some a =>
+        match leafBorrowLeft a c with
+        | none => none
+        | some (a', c', sep) =>
+          if i - 1 < b.keys.length then some (branchReplace2 b (i-1) a' c' sep, al) else none   -- `parent.keys[child_index - 1] = sep`
+    else if rightDonates then
+      match right with
+      | none => none
+      | some r =>
+        match leafBorrowRight c r with
+        | none => none
+        | some (c', r', some sep) =>
+          if i < b.keys.length then some (branchReplace2 b i c' r' sep, al) else none
+        | some (c', r', none) =>
+          -- the code leaves the separator alone and reports failure (unreachable: a donor keeps ≥ 1 key)
+          some ({ b with children := setAt (setAt b.children i c') (i+1) r' }, al)
+    else
+      match left with
+      | some a =>
+        match leafMerge cap a c with
+        | none => none
+        | some m =>
+          if i - 1 < b.keys.length then
+            some (branchMerge2 b (i-1) m, { al with leaf := al.leaf.dealloc c.id })
+          else none
+      | none =>
+        match right with
+        | some r =>
+          match leafMerge cap c r with
+          | none => none
+          | some m =>
+            if i < b.keys.length then
+              some (branchMerge2 b i m, { al with leaf := al.leaf.dealloc r.id })
+            else none
+        | none => some (b, al)                 -- no sibling: nothing happens
+
+/-- rotate the last key/child of branch `a` through separator `sep` into the front of `c` -/
+def branchBorrowLeft (a c : Branch K α) (sep : K) : Option (Branch K α × Branch K α × K) :=
+  match a.keys.getLast?, a.children.getLast? with
+  | some mk, some mc =>
+    some ({ a with keys := a.keys.dropLast, children := a.children.dropLast },
+          { c with keys := sep :: c.keys, children := mc :: c.children }, mk)
+  | _, _ => none
+def branchBorrowRight (c r : Branch K α) (sep : K) : Option (Branch K α × Branch K α × K) :=
+  match r.keys, r.children with
+  | mk :: ks, mc :: cs =>
+    some ({ c with keys := c.keys ++ [sep], children := c.children ++ [mc] },
+          { r with keys := ks, children := cs }, mk)
+  | _, _ => none
+def branchMergeNodes (cap : Nat) (a b : Branch K α) (sep : K) : Option (Branch K α) :=
+  if a.keys.length + 1 + b.keys.length ≤ cap ∧ a.children.length + b.children.length ≤ cap + 1 then  -- debug_assert!
+    some { a with keys := a.keys ++ sep :: b.keys, children := a.children ++ b.children }
+  else none
+
+/-- `rebalance_branch`: child `i` of `b` is an underfull branch -/
+def rebalanceBranch (cap : Nat) (b : Branch K (Branch K α)) (i : Nat) (al : Allocs) : Option (Branch K (Branch K α) × Allocs) :=
+  match b.children[i]? with
+  | none => none
+  | some c =>
+    let left : Option (Branch K α) := if i > 0 then b.children[i-1]? else none
+    let right : Option (Branch K α) := if i + 1 < b.children.length then b.children[i+1]? else none
+    let leftDonates : Bool := match left with | some a => canDonate cap a.keys.length | none => false
+    let rightDonates : Bool := match right with | some r => canDonate cap r.keys.length | none => false
+    -- `parent.keys[child_index - 1].clone()` / `parent.keys[child_index].clone()` are read whenever the sibling exists
+    let leftSepOk : Bool := match left with | some _ => decide (i - 1 < b.keys.length) | none => true
+    let rightSepOk : Bool := match right with | some _ => decide (i < b.keys.length) | none => true
+    if ¬ (leftSepOk ∧ rightSepOk) then none else
+    if leftDonates then
+      match left, b.keys[i-1]? with
+      | some a, some sep =>
+        match branchBorrowLeft a c sep with
+        | none => none
+        | some (a', c', mk) => some (branchReplace2 b (i-1) a' c' mk, al)
+      | _, _ => none
+    else if rightDonates then
+      match right, b.keys[i]? with
+      | some r, some sep =>
+        match branchBorrowRight c r sep with
+        | none => none
+        | some (c', r', mk) => some (branchReplace2 b i c' r' mk, al)
+      | _, _ => none
+    else
+      match left with
+      | some a =>
+        match b.keys[i-1]? with
+        | none => none
+        | some sep =>
+          match branchMergeNodes cap a c sep with
+          | none => none
+          | some m => some (branchMerge2 b (i-1) m, { al with branch := al.branch.dealloc c.id })
+      | none =>
+        match right with
+        | some r =>
+          match b.keys[i]? with
+          | none => none
+          | some sep =>
+            match branchMergeNodes cap c r sep with
+            | none => none
+            | some m => some (branchMerge2 b i m, { al with branch := al.branch.dealloc r.id })
+        | none => some (b, al)
+
+/-- `rebalance_child` -/
+def rebalance (cap : Nat) : (h : Nat) → Branch K (Tree K V h) → Nat → Allocs → Option (Branch K (Tree K V h) × Allocs)
+  | 0, b, i, al => rebalanceLeaf cap b i al
+  | _+1, b, i, al => rebalanceBranch cap b i al
+
+def removeRec (cap : Nat) : (h : Nat) → Tree K V h → K → Allocs → Option (RemOut K V h × Allocs)
+  | 0, (l : Leaf K V), k, al => (removeLeaf cap l k).map (fun r => (r, al))
+  | h+1, (b : Branch K (Tree K V h)), k, al =>
+    let i := upperBound b.keys k
+    match b.children[i]? with
+    | none => some ({ t := (b : Branch K (Tree K V h)), old := none, under := false }, al)
+    | some c =>
+      match removeRec cap h c k al with
+      | none => none
+      | some (r, al') =>
+        let b1 : Branch K (Tree K V h) := { b with children := setAt b.children i r.t }
+        if r.old.isSome ∧ r.under then
+          match rebalance cap h b1 i al' with
+          | none => none
+          | some (b2, al'') =>
+            some ({ t := (b2 : Branch K (Tree K V h)), old := r.old, under := isUnderfull cap b2.keys.length }, al'')
+        else
+          some ({ t := (b1 : Branch K (Tree K V h)), old := r.old,
+                  under := if r.old.isSome then isUnderfull cap b1.keys.length else false }, al')
+
+/-! ## map state and top-level operations -/
+
+structure RState (K V : Type) where
+  cap : Nat
+  height : Nat
+  root : Tree K V height
+  al : Allocs
+
+def emptyLeaf (id : Nat) : Leaf K V := { id := id, keys := [], vals := [], next := nullId }
+
+def freshState (cap : Nat) : RState K V :=
+  { cap := cap, height := 0, root := (emptyLeaf 0 : Leaf K V),
+    al := { leaf := { len := 1, free := [] }, branch := { len := 0, free := [] } } }
+
+/-- `BPlusTreeMap::new` / `empty`: `none` = `Err(InvalidCapacity)` -/
+def new (cap : Nat) : Option (RState K V) :=
+  if cap < minCapacity then none else some (freshState cap)
+
+/-- `clear`: both arenas cleared, a fresh root leaf allocated -/
+def clear (s : RState K V) : RState K V := freshState s.cap
+
+def insert (s : RState K V) (k : K) (v : V) : Option (RState K V × Option V) :=
+  match insertRec s.cap s.height s.root k v s.al with
+  | none => none
+  | some (.updated t old, al) => some ({ s with root := t, al := al }, old)
+  | some (.split l r sep old, al) =>
+    let root : Branch K (Tree K V s.height) := { id := al.branch.alloc.1, keys := [sep], children := [l, r] }
+    some ({ cap := s.cap, height := s.height + 1, root := root, al := { al with branch := al.branch.alloc.2 } }, old)
+
+/-- `collapse_root_if_needed` -/
+def collapse : (h : Nat) → Tree K V h → Allocs → (Σ h', Tree K V h') × Allocs
+  | 0, (l : Leaf K V), al => (⟨0, l⟩, al)
+  | h+1, (b : Branch K (Tree K V h)), al =>
+    match b.children with
+    | [c] => collapse h c { al with branch := al.branch.dealloc b.id }
+    | [] =>
+      let lid := al.leaf.alloc.1
+      (⟨0, (emptyLeaf lid : Leaf K V)⟩, { leaf := al.leaf.alloc.2, branch := al.branch.dealloc b.id })
+    | _ :: _ :: _ => (⟨h+1, b⟩, al)
+
+def remove (s : RState K V) (k : K) : Option (RState K V × Option V) :=
+  match removeRec s.cap s.height s.root k s.al with
+  | none => none
+  | some (r, al) =>
+    if r.old.isSome then
+      let c := collapse s.height r.t al
+      some ({ cap := s.cap, height := c.1.1, root := c.1.2, al := c.2 }, r.old)
+    else some ({ s with root := r.t, al := al }, none)
+
+/-! ## typed readers -/
+
+/-- `get` (returns the stored key object too, for the "first key object kept" clause) -/
+def getRec : (h : Nat) → Tree K V h → K → Option (K × V)
+  | 0, (l : Leaf K V), k =>
+    let i := lowerBound l.keys k
+    match l.keys[i]? with
+    | some k' => if ord k' = ord k then (l.vals[i]?).map (fun v => (k', v)) else none
+    | none => none
+  | h+1, (b : Branch K (Tree K V h)), k =>
+    match b.children[upperBound b.keys k]? with
+    | none => none
+    | some c => getRec h c k
+
+def get (s : RState K V) (k : K) : Option (K × V) := getRec s.height s.root k
+
+/-- a write through `get_mut` -/
+def setRec : (h : Nat) → Tree K V h → K → V → Tree K V h
+  | 0, (l : Leaf K V), k, v =>
+    let i := lowerBound l.keys k
+    match l.keys[i]? with
+    | some k' => if ord k' = ord k ∧ i < l.vals.length then ({ l with vals := setAt l.vals i v } : Leaf K V) else l
+    | none => l
+  | h+1, (b : Branch K (Tree K V h)), k, v =>
+    let i := upperBound b.keys k
+    match b.children[i]? with
+    | none => b
+    | some c => ({ b with children := setAt b.children i (setRec h c k v) } : Branch K (Tree K V h))
+
+def getMutWrite (s : RState K V) (k : K) (v : V) : RState K V × Option V :=
+  match get s k with
+  | some (_, old) => ({ s with root := setRec s.height s.root k v }, some old)
+  | none => (s, none)
+
+/-- `len_recursive` -/
+def lenRec : (h : Nat) → Tree K V h → Nat
+  | 0, (l : Leaf K V) => l.keys.length
+  | h+1, (b : Branch K (Tree K V h)) => (b.children.map (lenRec h)).sum
+
+def len (s : RState K V) : Nat := lenRec s.height s.root
+
+/-! ## structure listings (for `view`, the dump, and the id invariants) -/
+
+/-- id of the node at the root of a subtree -/
+def rootId : (h : Nat) → Tree K V h → Nat
+  | 0, (l : Leaf K V) => l.id
+  | _+1, (b : Branch K (Tree K V _)) => b.id
+
+/-- a branch as the arena stores it: capacity-free record with child references -/
+structure BranchRec (K : Type) where
+  id : Nat
+  keys : List K
+  childIds : List Nat
+  childrenAreLeaves : Bool
+
+def branches : (h : Nat) → Tree K V h → List (BranchRec K)
+  | 0, _ => []
+  | h+1, (b : Branch K (Tree K V h)) =>
+    { id := b.id, keys := b.keys, childIds := b.children.map (rootId h), childrenAreLeaves := decide (h = 0) }
+      :: b.children.flatMap (branches h)
 
 end BPT.Rust
